@@ -235,7 +235,7 @@ def plan(tier, seed):
         for apps in app_sets:
             for start, prefix in PREFIX.items():
                 for d in range(1, depth + 1):
-                    for tail in itertools.product(scen.EVENTS, repeat=d):
+                    for tail in itertools.product(scen.EVENTS + scen.EVENTS_OPT if d <= 2 else scen.EVENTS, repeat=d):
                         if d < depth and False:
                             continue
                         cases.append({"role": role, "apps": apps, "seq": prefix + list(tail)})
@@ -245,7 +245,7 @@ def plan(tier, seed):
     for i in range(150 if q else 3000):
         role = rng.choice(["client", "server"])
         seq = ["@open"] if rng.random() < 0.8 else []
-        seq += [rng.choice(scen.EVENTS) for _ in range(rng.randrange(2, 10))]
+        seq += [rng.choice(scen.EVENTS + scen.EVENTS_OPT) for _ in range(rng.randrange(2, 10))]
         cases.append({"role": role, "apps": rng.choice([[], [16777251], [16777251, 4]]), "seq": seq, "seed": seed * 31 + i})
     # park sweep of the state-machine thread: each event lands while the thread stands at the k-th line of its tick
     for prefix, events in ((["@open"], ["local-stop", "local-stop+pending-inbound", "DPR", "DWR", "peer-disconnect", "APP-req", "DWA-echo", "CER"]),
